@@ -110,6 +110,8 @@ def props_of(finding, trace, sc):
         return {"C19"}
     if base == "foreign":
         return {"C19", "C13", "C08"}
+    if base == "reform":
+        return {"C19"}
     if base == "orphan":
         return {"C01", "C08", "C13", "C14", "C19"}
     if base == "read":
